@@ -16,6 +16,9 @@ func c16Run(c *runner.Ctx) {
 	var w *gen.World
 	var err error
 	shape := "random"
+	if c.Idx%2 == 1 { // hostile history: aborted and cancelled merges precede the merges whose statistics are checked
+		abortedMergeHistory(c)
+	}
 	if c.Idx%200 == 0 {
 		shape = "jumbo"
 		w, err = gen.GenWorld(c.R, c.TmpDir, fmt.Sprintf("w%d", c.Idx), gen.WorldOpts{Jumbo: true})
